@@ -8,143 +8,7 @@
 */
 #include "vp_mir.h"
 
-enum cls { C_NONE, C_iO, C_iI, C_fO, C_fI, C_dO, C_dI, C_ldO, C_ldI, C_LAB, C_VAR, C_VA, C_ANYMEM, C_PROPV, C_IIMM };
-static const char *cls_name[] = {"-", "iO", "iI", "fO", "fI", "dO", "dI", "ldO", "ldI", "lab", "var", "va_list", "anymem", "propvar", "intimm"};
-
-typedef struct { MIR_insn_code_t code; const char *name; int nops; enum cls c[4]; int flags; } opdesc_t;
-#define F_OVF_BRANCH 1  /* needs a preceding overflow insn */
-#define F_VARARG 2      /* only in vararg functions */
-#define F_NORES 4       /* function must have no results (jret) */
-#define F_PROP 8
-
-#define I2(n) {MIR_##n, #n, 2, {C_iO, C_iI}, 0}
-#define I3(n) {MIR_##n, #n, 3, {C_iO, C_iI, C_iI}, 0}
-#define CB(n) {MIR_##n, #n, 3, {C_LAB, C_iI, C_iI}, 0}
-#define X2(n, a, b) {MIR_##n, #n, 2, {a, b}, 0}
-#define X3(n, a, b, c) {MIR_##n, #n, 3, {a, b, c}, 0}
-static const opdesc_t ops[] = {
-  I2 (MOV), X2 (FMOV, C_fO, C_fI), X2 (DMOV, C_dO, C_dI), X2 (LDMOV, C_ldO, C_ldI),
-  I2 (EXT8), I2 (EXT16), I2 (EXT32), I2 (UEXT8), I2 (UEXT16), I2 (UEXT32), I2 (NEG), I2 (NEGS),
-  X2 (I2F, C_fO, C_iI), X2 (UI2F, C_fO, C_iI), X2 (I2D, C_dO, C_iI), X2 (UI2D, C_dO, C_iI), X2 (I2LD, C_ldO, C_iI), X2 (UI2LD, C_ldO, C_iI),
-  X2 (F2I, C_iO, C_fI), X2 (D2I, C_iO, C_dI), X2 (LD2I, C_iO, C_ldI),
-  X2 (F2D, C_dO, C_fI), X2 (F2LD, C_ldO, C_fI), X2 (D2F, C_fO, C_dI), X2 (D2LD, C_ldO, C_dI), X2 (LD2F, C_fO, C_ldI), X2 (LD2D, C_dO, C_ldI),
-  X2 (FNEG, C_fO, C_fI), X2 (DNEG, C_dO, C_dI), X2 (LDNEG, C_ldO, C_ldI),
-  X2 (ADDR, C_iO, C_VAR), X2 (ADDR8, C_iO, C_VAR), X2 (ADDR16, C_iO, C_VAR), X2 (ADDR32, C_iO, C_VAR),
-  I3 (ADD), I3 (ADDS), I3 (SUB), I3 (SUBS), I3 (MUL), I3 (MULS), I3 (DIV), I3 (DIVS), I3 (UDIV), I3 (UDIVS), I3 (MOD), I3 (MODS), I3 (UMOD), I3 (UMODS),
-  I3 (AND), I3 (ANDS), I3 (OR), I3 (ORS), I3 (XOR), I3 (XORS), I3 (LSH), I3 (LSHS), I3 (RSH), I3 (RSHS), I3 (URSH), I3 (URSHS),
-  I3 (EQ), I3 (EQS), I3 (NE), I3 (NES), I3 (LT), I3 (LTS), I3 (ULT), I3 (ULTS), I3 (LE), I3 (LES), I3 (ULE), I3 (ULES),
-  I3 (GT), I3 (GTS), I3 (UGT), I3 (UGTS), I3 (GE), I3 (GES), I3 (UGE), I3 (UGES),
-  I3 (ADDO), I3 (ADDOS), I3 (SUBO), I3 (SUBOS), I3 (MULO), I3 (MULOS), I3 (UMULO), I3 (UMULOS),
-  X3 (FADD, C_fO, C_fI, C_fI), X3 (FSUB, C_fO, C_fI, C_fI), X3 (FMUL, C_fO, C_fI, C_fI), X3 (FDIV, C_fO, C_fI, C_fI),
-  X3 (DADD, C_dO, C_dI, C_dI), X3 (DSUB, C_dO, C_dI, C_dI), X3 (DMUL, C_dO, C_dI, C_dI), X3 (DDIV, C_dO, C_dI, C_dI),
-  X3 (LDADD, C_ldO, C_ldI, C_ldI), X3 (LDSUB, C_ldO, C_ldI, C_ldI), X3 (LDMUL, C_ldO, C_ldI, C_ldI), X3 (LDDIV, C_ldO, C_ldI, C_ldI),
-  X3 (FEQ, C_iO, C_fI, C_fI), X3 (FNE, C_iO, C_fI, C_fI), X3 (FLT, C_iO, C_fI, C_fI), X3 (FLE, C_iO, C_fI, C_fI), X3 (FGT, C_iO, C_fI, C_fI), X3 (FGE, C_iO, C_fI, C_fI),
-  X3 (DEQ, C_iO, C_dI, C_dI), X3 (DNE, C_iO, C_dI, C_dI), X3 (DLT, C_iO, C_dI, C_dI), X3 (DLE, C_iO, C_dI, C_dI), X3 (DGT, C_iO, C_dI, C_dI), X3 (DGE, C_iO, C_dI, C_dI),
-  X3 (LDEQ, C_iO, C_ldI, C_ldI), X3 (LDNE, C_iO, C_ldI, C_ldI), X3 (LDLT, C_iO, C_ldI, C_ldI), X3 (LDLE, C_iO, C_ldI, C_ldI), X3 (LDGT, C_iO, C_ldI, C_ldI), X3 (LDGE, C_iO, C_ldI, C_ldI),
-  {MIR_JMP, "JMP", 1, {C_LAB}, 0},
-  X2 (BT, C_LAB, C_iI), X2 (BTS, C_LAB, C_iI), X2 (BF, C_LAB, C_iI), X2 (BFS, C_LAB, C_iI),
-  CB (BEQ), CB (BEQS), CB (BNE), CB (BNES), CB (BLT), CB (BLTS), CB (UBLT), CB (UBLTS), CB (BLE), CB (BLES), CB (UBLE), CB (UBLES),
-  CB (BGT), CB (BGTS), CB (UBGT), CB (UBGTS), CB (BGE), CB (BGES), CB (UBGE), CB (UBGES),
-  X3 (FBEQ, C_LAB, C_fI, C_fI), X3 (FBNE, C_LAB, C_fI, C_fI), X3 (FBLT, C_LAB, C_fI, C_fI), X3 (FBLE, C_LAB, C_fI, C_fI), X3 (FBGT, C_LAB, C_fI, C_fI), X3 (FBGE, C_LAB, C_fI, C_fI),
-  X3 (DBEQ, C_LAB, C_dI, C_dI), X3 (DBNE, C_LAB, C_dI, C_dI), X3 (DBLT, C_LAB, C_dI, C_dI), X3 (DBLE, C_LAB, C_dI, C_dI), X3 (DBGT, C_LAB, C_dI, C_dI), X3 (DBGE, C_LAB, C_dI, C_dI),
-  X3 (LDBEQ, C_LAB, C_ldI, C_ldI), X3 (LDBNE, C_LAB, C_ldI, C_ldI), X3 (LDBLT, C_LAB, C_ldI, C_ldI), X3 (LDBLE, C_LAB, C_ldI, C_ldI), X3 (LDBGT, C_LAB, C_ldI, C_ldI), X3 (LDBGE, C_LAB, C_ldI, C_ldI),
-  {MIR_BO, "BO", 1, {C_LAB}, F_OVF_BRANCH}, {MIR_UBO, "UBO", 1, {C_LAB}, F_OVF_BRANCH}, {MIR_BNO, "BNO", 1, {C_LAB}, F_OVF_BRANCH}, {MIR_UBNO, "UBNO", 1, {C_LAB}, F_OVF_BRANCH},
-  X2 (LADDR, C_iO, C_LAB),
-  {MIR_JMPI, "JMPI", 1, {C_iI}, 0},
-  {MIR_JRET, "JRET", 1, {C_iI}, F_NORES},
-  X2 (ALLOCA, C_iO, C_iI),
-  {MIR_BSTART, "BSTART", 1, {C_iO}, 0}, {MIR_BEND, "BEND", 1, {C_iI}, 0},
-  {MIR_VA_ARG, "VA_ARG", 3, {C_iO, C_VA, C_ANYMEM}, F_VARARG},
-  {MIR_VA_BLOCK_ARG, "VA_BLOCK_ARG", 4, {C_iI, C_VA, C_iI, C_iI}, F_VARARG},
-  {MIR_VA_START, "VA_START", 1, {C_VA}, F_VARARG}, {MIR_VA_END, "VA_END", 1, {C_VA}, F_VARARG},
-  {MIR_PRSET, "PRSET", 2, {C_PROPV, C_IIMM}, F_PROP},
-  {MIR_PRBEQ, "PRBEQ", 3, {C_LAB, C_PROPV, C_IIMM}, F_PROP}, {MIR_PRBNE, "PRBNE", 3, {C_LAB, C_PROPV, C_IIMM}, F_PROP},
-};
-#define NOPS ((int) (sizeof ops / sizeof ops[0]))
-
-enum kind { K_Ri, K_Rf, K_Rd, K_Rld, K_Ii, K_Iu, K_If, K_Id, K_Ild,
-            K_Mi8, K_Mu8, K_Mi16, K_Mu16, K_Mi32, K_Mu32, K_Mi64, K_Mu64, K_Mp, K_Mf, K_Md, K_Mld,
-            K_Mblk0, K_Mblk1, K_Mblk2, K_Mblk3, K_Mblk4, K_Mrblk, K_Mundef,
-            K_L, K_REFfunc, K_REFproto, K_REFdata, K_REFimport, K_STR,
-            K_Mi64_idx, K_Mi64_fbase, K_Mi64_findex, K_Rundecl, K_Mi64_undeclbase, K_Md_idx, NKINDS };
-static const char *kind_name[] = {"Ri", "Rf", "Rd", "Rld", "Ii", "Iu", "If", "Id", "Ild",
-                                  "Mi8", "Mu8", "Mi16", "Mu16", "Mi32", "Mu32", "Mi64", "Mu64", "Mp", "Mf", "Md", "Mld",
-                                  "Mblk0", "Mblk1", "Mblk2", "Mblk3", "Mblk4", "Mrblk", "Mundef",
-                                  "L", "REFfunc", "REFproto", "REFdata", "REFimport", "STR",
-                                  "Mi64(b,i,8)", "Mi64(fbase)", "Mi64(findex)", "Rundeclared", "Mi64(undeclared base)", "Md(b,i,4)"};
-
-/* verdicts */
-#define ACC 1
-#define REJ 2
-#define UNS 3
-#define E(x) (1ull << MIR_##x##_error)
-#define E_MODE (E (op_mode) | E (out_op))
-#define E_TYPE (E (wrong_type) | E (op_mode) | E (out_op))
-
-static int int_mem_kind (int k) { return (K_Mi8 <= k && k <= K_Mp) || k == K_Mi64_idx; }
-static int mem_kind (int k) { return (K_Mi8 <= k && k <= K_Mundef) || (K_Mi64_idx <= k && k <= K_Md_idx && k != K_Rundecl); }
-
-/* expectation for (class, kind): returns ACC/REJ/UNS, *errs = allowed error set when REJ */
-static int expect (enum cls c, int k, uint64_t *errs) {
-  *errs = 0;
-  /* the 3rd operand of va_arg is only a type carrier ("the memory operand type defines the type of the argument");
-     its address registers are never evaluated, so faults in them are observed, not judged */
-  if (c == C_ANYMEM && (k == K_Mi64_fbase || k == K_Mi64_findex || k == K_Mi64_undeclbase)) return UNS;
-  /* structural faults of the operand itself dominate (any of the applicable specific codes is fine) */
-  if (k == K_Rundecl || k == K_Mi64_undeclbase) { *errs = E (undeclared_func_reg) | E_MODE; return REJ; }
-  if (k == K_Mi64_fbase || k == K_Mi64_findex) { *errs = E (reg_type) | E_MODE; return REJ; }
-  int blk = K_Mblk0 <= k && k <= K_Mrblk;
-  switch (c) {
-  case C_iO:
-    if (k == K_Ri || int_mem_kind (k)) return ACC;
-    *errs = blk || k == K_Mundef ? E_TYPE : E_MODE; return REJ;
-  case C_iI:
-    if (k == K_Ri || k == K_Ii || k == K_Iu || int_mem_kind (k)) return ACC;
-    if (k == K_REFfunc || k == K_REFproto || k == K_REFdata || k == K_REFimport || k == K_STR) return UNS; /* "just an address": MIR.md silent */
-    *errs = blk || k == K_Mundef ? E_TYPE : E_MODE; return REJ;
-  case C_fO: if (k == K_Rf || k == K_Mf) return ACC; *errs = blk || k == K_Mundef ? E_TYPE : E_MODE; return REJ;
-  case C_dO: if (k == K_Rd || k == K_Md || k == K_Md_idx) return ACC; *errs = blk || k == K_Mundef ? E_TYPE : E_MODE; return REJ;
-  case C_ldO: if (k == K_Rld || k == K_Mld) return ACC; *errs = blk || k == K_Mundef ? E_TYPE : E_MODE; return REJ;
-  case C_fI: if (k == K_Rf || k == K_Mf || k == K_If) return ACC; *errs = blk || k == K_Mundef ? E_TYPE : E_MODE; return REJ;
-  case C_dI: if (k == K_Rd || k == K_Md || k == K_Md_idx || k == K_Id) return ACC; *errs = blk || k == K_Mundef ? E_TYPE : E_MODE; return REJ;
-  case C_ldI: if (k == K_Rld || k == K_Mld || k == K_Ild) return ACC; *errs = blk || k == K_Mundef ? E_TYPE : E_MODE; return REJ;
-  case C_LAB: if (k == K_L) return ACC; *errs = blk || k == K_Mundef ? E_TYPE : E_MODE; return REJ;
-  case C_VAR: /* ADDR*: "a register"; which register types are meaningful for addr8/16/32 is not specified */
-    if (k == K_Ri) return ACC;
-    if (k == K_Rf || k == K_Rd || k == K_Rld) return UNS;
-    *errs = blk || k == K_Mundef ? E_TYPE : E_MODE; return REJ;
-  case C_VA: /* address of va_list: integer operand, or memory with undefined type (MIR.md VA section) */
-    if (k == K_Ri || k == K_Mundef || int_mem_kind (k)) return ACC;
-    if (k == K_Ii || k == K_Iu || k == K_REFfunc || k == K_REFproto || k == K_REFdata || k == K_REFimport || k == K_STR) return UNS;
-    *errs = blk ? E_TYPE : E_MODE; return REJ;
-  case C_ANYMEM: /* "any memory operand": type carrier */
-    if (mem_kind (k) && !blk && k != K_Mundef) return ACC;
-    if (blk || k == K_Mundef) return UNS;
-    *errs = E_MODE; return REJ;
-  case C_PROPV: /* "the variable": reg or memory of any ordinary type */
-    if (k <= K_Rld) return ACC;
-    if (mem_kind (k) && !blk && k != K_Mundef) return ACC;
-    if (blk || k == K_Mundef) { *errs = E_TYPE; return REJ; }
-    *errs = E_MODE; return REJ;
-  case C_IIMM:
-    if (k == K_Ii) return ACC;
-    if (k == K_Iu) return UNS;
-    *errs = E_TYPE; return REJ;
-  default: return UNS;
-  }
-}
-static int default_kind (enum cls c) {
-  switch (c) {
-  case C_iO: case C_iI: case C_VAR: case C_VA: case C_PROPV: return K_Ri;
-  case C_fO: case C_fI: return K_Rf;
-  case C_dO: case C_dI: return K_Rd;
-  case C_ldO: case C_ldI: return K_Rld;
-  case C_LAB: return K_L;
-  case C_ANYMEM: return K_Mi64;
-  case C_IIMM: return K_Ii;
-  default: return K_Ri;
-  }
-}
+#include "optable.h"
 
 /* ------------------------------------------------------------------ building one function */
 typedef struct {
